@@ -43,10 +43,16 @@ def relevant_props(item, trace):
             if any(S.ttl_expired(f, now) or f.get("ttl") == "ephemeral" for f in got if isinstance(f, dict)):
                 ps.add("C09")
             return ps
-        if op == "get":
-            return {"C01", "C05"}
-        if op == "head":
-            return {"C05", "C06"}
+        if op in ("get", "head"):
+            ps = {"C01", "C05"} if op == "get" else {"C05", "C06"}
+            # a frame that came in by import and is now found where the model does not have it (or the other way round):
+            # the import was not a plain copy (C20: same frames, same heads)
+            imported = {x["op"]["frame"].get("id") for x in trace[: item["i"]]
+                        if x["op"].get("op") == "import" and isinstance(x["op"].get("frame"), dict)}
+            a, b = item["impl"].get("ok"), (item.get("model") or {}).get("ok")
+            if a != b and any(isinstance(f, dict) and f.get("id") in imported for f in (a, b)):
+                ps.add("C20")
+            return ps
         if op == "append":
             ps = {"C07", "C05", "C01"}
             if any(x["op"].get("op") == "import" and isinstance(x["op"].get("frame"), dict)
